@@ -345,3 +345,17 @@ Proof.
   - destruct b_resp; try discriminate. cbn. rewrite N.eqb_refl, N.leb_refl.
     assert (E2 : (0 <? r)%N = true) by (apply N.ltb_lt; lia). rewrite E2. reflexivity.
 Qed.
+
+(* explicit-revision reads: whatever the Revision field says, a follower syncs first (the field is overloaded:
+   count-only and the partition list answer at the node's read revision) *)
+Lemma explicit_revision_reads_sync : forall m v proxy l,
+  roles_effects (ERangeAt m v) Follower proxy l = roles_effects ERangeList Follower proxy l.
+Proof. reflexivity. Qed.
+
+Lemma c18_follow_sound : forall m v r1 r2 sets hdr2,
+  c18_check (FollowCase m v r1 r2 sets hdr2) = true -> c18_oracle (FollowCase m v r1 r2 sets hdr2) = None.
+Proof.
+  intros m v r1 r2 sets hdr2 H. unfold c18_check, follow_model in H.
+  apply andb_true_iff in H. destruct H as [H1 H2]. apply list_eqb_N_eq in H1. subst sets.
+  apply N.eqb_eq in H2. subst hdr2. unfold c18_oracle. cbn [rev app]. rewrite N.eqb_refl, N.leb_refl. reflexivity.
+Qed.
